@@ -153,7 +153,12 @@ func (e *Exec) staticCall(callee *ssa.Function, args []Term, reach string, h *He
 		}
 		return ret, h2
 	}
-	// 4. default contract: inferred frame, unconstrained result
+	// 4. scalar-in/scalar-out function without effects: deterministic uninterpreted function
+	if e.p.autoPure(e.u(), callee) {
+		vc.usedSpecs[name+" (auto-pure: scalar function without effects, modelled as deterministic)"] = true
+		return e.autoPureCall(callee, name, args, h), h
+	}
+	// 5. default contract: inferred frame, unconstrained result
 	return e.defaultCall(callee, name, args, reach, h, pos, hint)
 }
 
@@ -187,13 +192,13 @@ func (e *Exec) contractCall(con *Contract, callee *ssa.Function, name string, ar
 		for _, p := range callee.Params {
 			pnames = append(pnames, p.Name())
 		}
-		if len(callee.Blocks) == 0 && len(con.Params) > 0 {
+		if len(con.Params) == len(args) && (len(callee.Blocks) == 0 || callee.Package() == nil || !inModule(callee.Package().Pkg)) {
 			pnames = con.Params
 		}
 	} else {
 		pnames = con.Params
 	}
-	env := &Env{e: e, heap: h, old: h, names: map[string]Term{}, pkg: nil, fn: callee, reach: reach}
+	env := &Env{e: e, heap: h, old: h, names: map[string]Term{}, pkg: nil, fn: callee, reach: reach, noLocals: true}
 	if callee != nil && callee.Package() != nil {
 		env.pkg = callee.Package().Pkg
 	}
@@ -235,7 +240,7 @@ func (e *Exec) contractCall(con *Contract, callee *ssa.Function, name string, ar
 	} else if rt != nil {
 		ret = e.resultValue(rt, hint, h2)
 	}
-	env2 := &Env{e: e, heap: h2, old: h, names: env.names, pkg: env.pkg, fn: callee, reach: reach}
+	env2 := &Env{e: e, heap: h2, old: h, names: env.names, pkg: env.pkg, fn: callee, reach: reach, noLocals: true}
 	bindResults(env2, ret, sig)
 	if con.Fresh && ret.S != "" {
 		vc.assume(implies(not(eq(ret.S, "0")), and(app(">=", ret.S, h.get("clock")), app("<", ret.S, h2.get("clock")))))
@@ -437,7 +442,7 @@ func (e *Exec) contractCall2(con *Contract, sig *types.Signature, name string, a
 	// contract on an interface method: Params are declared in the spec (receiver first)
 	vc := e.vc
 	vc.usedSpecs[name] = true
-	env := &Env{e: e, heap: h, old: h, names: map[string]Term{}, reach: reach}
+	env := &Env{e: e, heap: h, old: h, names: map[string]Term{}, reach: reach, noLocals: true}
 	for i, n := range con.Params {
 		if i < len(args) {
 			env.names[n] = args[i]
@@ -468,7 +473,7 @@ func (e *Exec) contractCall2(con *Contract, sig *types.Signature, name string, a
 	} else {
 		ret = e.resultValue(rt, hint, h2)
 	}
-	env2 := &Env{e: e, heap: h2, old: h, names: env.names, reach: reach}
+	env2 := &Env{e: e, heap: h2, old: h, names: env.names, reach: reach, noLocals: true}
 	bindResults(env2, ret, sig)
 	for _, cl := range con.clauses("ensures") {
 		t, err := env2.eval(cl.Expr)
@@ -602,4 +607,9 @@ func (e *Exec) appendOp(c *ssa.CallCommon, args []Term, res ssa.Value, reach str
 		s.S, slen, s.S, newLen, E2, s.S, E, s.S, E2, s.S)))
 	h3 := h2.set(ev, E2)
 	return rn, h3
+}
+
+func (e *Exec) autoPureCall(callee *ssa.Function, name string, args []Term, h *Heap) Term {
+	con := &Contract{Name: name, Pure: true}
+	return e.pureResult(con, name, args, callee.Signature.Results(), h)
 }
